@@ -326,11 +326,17 @@ def multi_instance(r, geom, bid, cfg, n_inst=2):
     (compound names '1a', ... in traces). Same data dir with distinct keys, or distinct dirs."""
     g = GEOM[geom]
     ids = IdGen()
-    layout = r.choice(["keys", "dirs", "mixed"])
+    layout = r.choice(["keys", "keys", "dirs", "mixed"])
     insts = []
+    # key pools: ordinary keys, keys differing only in kept punctuation, and keys that consist only of
+    # replaced characters (they fall back to a hashed directory name and must still be distinct)
+    pools = [["k0", "k1", "k2"], ["a.b", "a_b", "a-b"], ["@@@", "###", "$$$"], ["\u6771\u4eac", "\u5927\u962a", "\u4eac\u90fd"],
+             [" ", "/", "\\"], ["__", "??", "!!"], ["tenant-1", "tenant_1", "tenant.1"]]
+    pool = r.choice(pools)
+    r.shuffle(pool)
     for i in range(n_inst):
         if layout == "keys":
-            insts.append({"dir": "d0", "key": "k%d" % i})
+            insts.append({"dir": "d0", "key": pool[i % len(pool)] if n_inst <= len(pool) else "k%d" % i})
         elif layout == "dirs":
             insts.append({"dir": "d%d" % i, "key": None})
         else:
